@@ -26,13 +26,15 @@ import (
 func init() { register("C01", "other", checkC01) }
 
 type seqItem struct {
-	kind string // op | loop | rec | dyn
-	name string
-	arg  Val // writer: value written; reader: Val{KSym}
-	id   int
-	sym  *Sym
-	alts []*seqAlt // loop bodies
-	key  string
+	kind        string // op | loop | rec | dyn
+	name        string
+	arg         Val // writer: value written; reader: Val{KSym}
+	id          int
+	sym         *Sym
+	alts        []*seqAlt // loop bodies
+	key         string
+	excl        []constant.Value // spec '*' alternative: any value but these
+	illegalAlts []*seqAlt        // spec loop: iterations using values only other versions define
 }
 
 type seqAlt struct {
